@@ -452,7 +452,7 @@ def check_define_slot(ctx, rep, rule):
         for _ in range(10):
             if v is None:
                 break
-            if v[0] == 'call' and (v[1].endswith('::unwrap') or v[1].endswith('try_into') or v[1].endswith('::expect') or v[1].endswith('::unwrap_or_default')
+            if v[0] == 'call' and (v[1].endswith('::unwrap') or v[1].endswith('try_into') or v[1].endswith('::try_from') or v[1].endswith('::expect') or v[1].endswith('::unwrap_or_default')
                                    or (v[1].endswith('::from') and len(v[2]) == 1) or (v[1].startswith('compiler::') and len(v[2]) == 1)):
                 v = v[2][0]
             elif v[0] in ('okval', 'cast'):
